@@ -37,12 +37,25 @@ def _digits_of(ctx, e):
             raise Unsupported("numeral of a negative number")
         return len(str(v))
     cache = ctx.ghost.setdefault("digits_cache", {})
+    if e.get_id() in cache:                       # established earlier on this path: hypotheses only grow
+        return cache[e.get_id()]
     key = (e.get_id(), len(ctx.hyps()))
     if key in cache:
         return cache[key]
     hyps = ctx.hyps()
+    # one model tells which digit count to try
+    s0 = z3.Solver()
+    s0.set("timeout", 1500)
+    for h in hyps:
+        s0.add(h)
+    ks = list(range(1, 6))
+    if s0.check() == z3.sat:
+        v0 = s0.model().eval(e, model_completion=True)
+        if z3.is_int_value(v0) and v0.as_long() >= 0:
+            k0 = len(str(v0.as_long()))
+            ks = [k0] if k0 <= 5 else []
     res = "unsupported"
-    for k in range(1, 6):
+    for k in ks:
         lo = 0 if k == 1 else 10 ** (k - 1)
         v, _, _, _ = smt.prove(hyps, z3.And(e >= lo, e < 10 ** k), timeout_ms=2000)
         if v == "proved":
@@ -55,6 +68,8 @@ def _digits_of(ctx, e):
     cache[key] = res
     if res == "unsupported":
         raise Unsupported(f"numeral of {e}: sign / number of digits not determined by the path condition at {ctx.where}")
+    if res is not None:
+        cache[e.get_id()] = res
     return res
 
 
@@ -65,6 +80,12 @@ def norm(I, ctx, s):
     s = B.enum_str(s)
     if isinstance(s, str):
         return NFmt(list(s))
+    from .values import IsoStr
+    if isinstance(s, IsoStr):
+        if s.y is None:
+            raise Unsupported("ISO date string known by its key only")
+        ctx.assumed_ext.add("date.isoformat(): YYYY-MM-DD with zero padding (years 1000..9999: four digits)")
+        return NFmt([Dec(B._z(s.y), 4), "-", Dec(B._z(s.m), 2), "-", Dec(B._z(s.d), 2)])
     if not isinstance(s, FmtStr):
         raise Unsupported(f"not a string: {s!r}")
     segs = []
@@ -539,3 +560,20 @@ def regex_match(I, ctx, pattern, s, kind):
     if c is False:
         return None
     return B.OptVal(smt.simp(z3.Not(c)), m)
+
+
+def match_concrete(pattern, text):
+    """the derivative matcher on a concrete string (for the differential validation against re)"""
+    if pattern not in _CONVERTED:
+        _CONVERTED[pattern] = _convert(pattern)
+    rx, end = _CONVERTED[pattern]
+    if not end:
+        raise Unsupported("pattern without $")
+    r = rx
+    for ch in text:
+        if ch not in ALPHABET:
+            return False
+        r = deriv(r, ch)
+        if r == EMPTY:
+            return False
+    return nullable(r)
